@@ -325,13 +325,13 @@ def gen_cases(ctx):
                       "shape": [h, w], "extent": ext, "vps": v, "want_lonlats": True, "true_cw": None})
     rings += gen_long(ctx)
     for g in rings:
-        g["want_legacy"] = g.get("key") != "long_side" or r.random() < 0.3
+        g["want_legacy"] = r.random() < (0.3 if g.get("key") == "long_side" else ctx.n(0.5, 1.0))
         if g["vps"] is None and r.random() < 0.7:
             g["frequency_legacy"] = r.choice([1, 2, 2, 3, 4, 5, 7, 11])
     c["rings"] = rings
     # ---- AreaBoundary.decimate on synthetic sides (positions as values), with and without a memoised polygon
     dec = [([L, L, L, L], q, t) for L in range(2, 13) for q in range(1, 8) for t in (False,)]
-    for _ in range(ctx.n(120, 1200)):
+    for _ in range(ctx.n(80, 1200)):
         dec.append(([r.randint(2, r.choice([8, 40, 200])) for _ in range(4)], r.randint(1, r.choice([3, 12, 60])), r.random() < 0.5))
     c["decimate"] = dec
     # ---- NaN filtering (encoded north-up swaths with invalid edge pixels)
